@@ -28,6 +28,7 @@ type Engine struct {
 	syntax  []*ast.File
 	addrTaken []*ssa.Function
 	impNames  map[string]map[string]string
+	cellCache map[*ssa.Function]map[string]*cellInfo
 }
 
 // Term is an SMT term with its sort and (when known) Go type.
